@@ -39,6 +39,9 @@ def urls():
         ('odvod-file-big', '/dash/odvod/bbb/bbb_t1.mp4', ('bbb', 'bbb_t1')),
         # a file with padding boxes between its fragments and an mfra box after the last one
         ('odvod-file-trailer', '/dash/odvod/syntrk/syntrk_a1.mp4', ('syntrk', 'syntrk_a1')),
+        # the largest stored file (2.8 MB): slices longer than any read or buffer size the service uses (16 KiB reader
+        # buffers, power-of-two chunk sizes up to 2 MiB lie inside the integer alphabet of this length)
+        ('odvod-file-large', '/dash/odvod/tears/tears_v2.mp4', ('tears', 'tears_v2')),
         ('mps-number', '/mps/vod/testmps/{ppk}/bbb_v7/2.m4v', None),
         ('vod-number-big', '/dash/vod/bbb/bbb_v7/3.m4v', None),
         # segments that the service post-processes after encoding (corruption rewrites bytes inside mdat, events add boxes)
@@ -49,7 +52,10 @@ def urls():
 
 
 def integer_headers(L):
-    vals = sorted({0, 1, 2, max(L - 2, 0), max(L - 1, 0), L, L + 1, 2 * L, 10 ** 12})
+    vals = {0, 1, 2, max(L - 2, 0), max(L - 1, 0), L, L + 1, 2 * L, 10 ** 12}
+    # resources longer than a buffer or chunk size: both sides of the power-of-two sizes below the length
+    vals |= {v for p in (14, 16, 20, 21) for v in ((1 << p) - 1, 1 << p, (1 << p) + 1) if (1 << p) < L}
+    vals = sorted(vals)
     out = []
     for a in vals:
         for b in vals:
